@@ -30,7 +30,7 @@ def main():
     if rc != 0:
         print(json.dumps(rec, indent=1)); return 1
     # demonstration on the unchanged tree
-    rc0, out0 = run(["sh", os.path.join(src, "demo.sh")], wt)
+    rc0, out0 = run(["bash", os.path.join(src, "demo.sh")], wt)
     run("git checkout -- . && git clean -fdq -e target", wt)
     run(["git", "apply", patch], wt)
     rc, out = run("cargo build --offline", wt)
@@ -41,10 +41,10 @@ def main():
     passed = sum(int(x) for x in re.findall(r"test result: \w+\. (\d+) passed", out))
     failed = sum(int(x) for x in re.findall(r"test result: \w+\. \d+ passed; (\d+) failed", out))
     rec["cargo_test_workspace_no_fail_fast_offline"] = "%d passed, %d failed" % (passed, failed)
-    rc1, out1 = run(["sh", os.path.join(src, "demo.sh")], wt)
+    rc1, out1 = run(["bash", os.path.join(src, "demo.sh")], wt)
     files = subprocess.run(["git", "diff", "--name-only"], cwd=wt, stdout=subprocess.PIPE).stdout.decode().split()
     run("git checkout -- . && git clean -fdq -e target", wt)
-    rec["demonstration"] = "sh demo.sh from the repository root"
+    rec["demonstration"] = "bash demo.sh from the repository root"
     rec["demo_exit_status_with_patch"] = rc1
     rec["demo_exit_status_without_patch"] = rc0
     rec["demo_output_with_patch_tail"] = out1[-700:]
